@@ -12,7 +12,7 @@ SPEC = {
         # wire oracle (harness/o_auth.go, Lean judge Driver/DJudgeAuth.lean `judge-c18-wire`): whole servers with 2-3 users
         # (own connector / credentials / marker content each), generated command sequences over 2-5 interleaved
         # connections covering every payload type in every protocol state (not authenticated, after a failed LOGIN,
-        # authenticated, selected, after CLOSE/UNSELECT, after LOGOUT / dropped), credential pairs (right, wrong password,
+        # authenticated, selected, after CLOSE/UNSELECT, after LOGOUT), credential pairs (right, wrong password,
         # unknown user, other user's password, other user's name, changed case), login jail of 300 ms.
         # Gluon.Auth.step with the regenerated facts predicts completion class and state of every step;
         # Gluon.Auth.attempt bounds reply times from below and predicts the "too many login attempts" replies exactly;
@@ -33,7 +33,7 @@ SPEC = {
         "login counter model: loginLock serialises attempts, loginWG.Wait() returns when the armed timer has fired, time.AfterFunc fires no earlier than its duration (abstract time; arbitrary arrival times, Authorize durations and timer latencies)",
         "jail measured from the client: a command is handled after the client sent it and its reply is received after it was decided; with that, theorem earliest_schedule_lower_bound makes `reply to the next attempt received >= send time of the blocked attempt + jail` (1 ms tolerance for clock granularity) a consequence of the model for all server-side timings - a lower bound only, so machine load cannot raise an alarm; the counter itself (three in a row, reset by success and by the timer) is observed exactly through the reply text `too many login attempts`, with no upper time bound",
         "where the model's prediction depends on Cmd.ok (a handler body runs: mailbox / message exists ...) the wire judge accepts OK and the failure classes NO and BAD (handlers answer BAD for `no such message`) and follows the observed outcome; in every gated position the class is exact",
-        "classified, not judged under C18: STARTTLS on a server without TLS configuration drops the connection without a tagged reply (C11); an untagged BYE without completion in the selected state (the selected mailbox was deleted: serve loop's IsValid check) - not modelled in Auth.step, the judge continues with the session closed",
+        "STARTTLS on a server without TLS configuration is answered `<tag> NO` and the session carries on (exact in the wire judge: class no, state unchanged; after LOGOUT the reader goroutine may still answer a STARTTLS with that NO before Session.done has closed the connection - none or no accepted there); a stray DONE has no tag and is completed by the untagged `* NO bad command` (class no); classified, not judged under C18: an untagged BYE without completion in the selected state (the selected mailbox was deleted: serve loop's IsValid check) - not modelled in Auth.step, the judge continues with the session closed",
         "not modelled: parse errors / maxSessionError (C11), TLS upgrade, response texts; AUTHENTICATE is not implemented by gluon; a failed SELECT/EXAMINE of a missing mailbox leaves the previously selected mailbox selected in gluon (State.Select looks the name up before closing the snapshot) and the model does the same",
     ],
     "explanation": "Lean theorems over the facts-driven session model: for every command sequence without an accepted LOGIN nothing changes and every mailbox/message command is answered NO (unauth_no_effect, by induction over sequences on top of a decide over the regenerated dispatch table and guards); message commands need a selected mailbox; wrong credentials never authenticate and an authenticated session cannot switch user; users are isolated over every interleaving of sessions; after three consecutive failures the next attempt is decided no earlier than t3 + jail; success resets the counter; the client-side jail measurement is a sound lower bound (earliest_schedule_lower_bound). Tie: the model is the oracle for whole servers on the wire - every payload type in every protocol state, several users and connections, all credential kinds, measured jail, views of every user before and after.",
